@@ -290,3 +290,44 @@ Example C09_wind_hyp_inhabited :
   length (w_enc C09_wind_example) = 48%nat /\
   w_mm_read 1 2 (w_enc C09_wind_long) (4 * Z.of_nat (length (w_enc C09_wind_long))) = WOk (w_view_of C09_wind_long).
 Proof. vm_compute. repeat split; try reflexivity; discriminate. Qed.
+
+(* ======================================================================================================
+   CAMx cloud/rain files (Model/CloudRain.v; Memmap reader hand-modelled incl. its size-based layout guess)
+   ====================================================================================================== *)
+From PNC Require Import Model.CloudRain Proofs.CloudRainProofs.
+
+Theorem C09_cloudrain_dec_enc : forall c, c_wf c = true -> c_dec (c_nvars c) (c_enc c) = Some c.
+Proof. exact c_dec_enc. Qed.
+Print Assumptions C09_cloudrain_dec_enc.
+
+(* the reader presents the content of every well-formed file whose size is unambiguous: every 5-field file, and every
+   3-field file whose data size is not also a whole number of 5-field steps *)
+Theorem C09_cloudrain_reader_presents_content : forall c, c_wf c = true -> c_steps c <> [] -> c_unambiguous c = true ->
+  cr_mm_read (c_enc c) (4 * Z.of_nat (length (c_enc c))) = Ok (c_view_of c).
+Proof. exact cr_reader_presents_content. Qed.
+Print Assumptions C09_cloudrain_reader_presents_content.
+
+(* INHERENT: the file does not say which layout it has. A valid 3-field file of 1x2 cells, one layer, three steps has
+   3 * 64 = 192 = 2 * 96 data bytes: the reader presents two 5-field steps (time records as data). Replays on the library:
+   finding cloud-rain-size-ambiguity (region 21). *)
+Definition C09_cloudrain_amb : cloudrain :=
+  {| c_desc := [1; 2; 3; 4; 5]; c_nx := 1; c_ny := 2; c_nz := 1; c_nvars := 3;
+     c_steps := [CStep 1147207680 99361 [[[11; 12]; [13; 14]; [15; 16]]]; CStep 1148846080 99361 [[[21; 22]; [23; 24]; [25; 26]]];
+                 CStep 1149861888 99361 [[[31; 32]; [33; 34]; [35; 36]]]] |}.
+Theorem C09_cloudrain_ambiguous_size_refuted :
+  c_wf C09_cloudrain_amb = true /\ c_unambiguous C09_cloudrain_amb = false /\
+  exists v, cr_mm_read (c_enc C09_cloudrain_amb) (4 * Z.of_nat (length (c_enc C09_cloudrain_amb))) = Ok v /\
+            cv_nvars v = 5 /\ cv_ntimes v = 2 /\
+            cv_data v = [[[[11; 12]; [13; 14]; [15; 16]; [1148846080; 99361]; [21; 22]]];
+                         [[[25; 26]; [1149861888; 99361]; [31; 32]; [33; 34]; [35; 36]]]].
+Proof. vm_compute. repeat split. eexists. repeat split. Qed.
+Print Assumptions C09_cloudrain_ambiguous_size_refuted.
+
+Definition C09_cloudrain_example : cloudrain :=
+  {| c_desc := [1; 2; 3; 4; 5]; c_nx := 2; c_ny := 1; c_nz := 1; c_nvars := 5;
+     c_steps := [CStep 1147207680 99361 [[[11; 12]; [13; 14]; [15; 16]; [17; 18]; [19; 20]]];
+                 CStep 1148846080 99361 [[[21; 22]; [23; 24]; [25; 26]; [27; 28]; [29; 30]]]] |}.
+Example C09_cloudrain_hyp_inhabited :
+  c_wf C09_cloudrain_example = true /\ c_steps C09_cloudrain_example <> [] /\ c_unambiguous C09_cloudrain_example = true /\
+  length (c_enc C09_cloudrain_example) = 58%nat.
+Proof. vm_compute. repeat split; try reflexivity; discriminate. Qed.
